@@ -156,6 +156,15 @@ func c04(c *ev.Ctx) {
 					return
 				}
 				for k, ho := range objs {
+					if k > 0 && (k+fi+si)%5 == 0 {
+						// a run without any object in between: every field name is null
+						o := evr.Exec(nil)
+						if exp := c04Expect(si, model.Null()); o.Desc() != exp || o.Panicked {
+							c.Violation(id, "a run without an object sees an earlier object's field", map[string]interface{}{
+								"summary": fmt.Sprintf("%s run against no object (after an object with that field): got %s, expected %s", script, o.Desc(), exp), "script": script})
+							return
+						}
+					}
 					var spec *gen.FieldSpec
 					for q := range ho.Fields {
 						if ho.Fields[q].Name == fname {
@@ -214,6 +223,16 @@ func c04(c *ev.Ctx) {
 		seq := 4 + r.Intn(4)
 		docs := make([]map[string]interface{}, seq)
 		for k := range docs {
+			if r.Intn(5) == 0 {
+				// no object at all (nil) or an empty document: every name is null,
+				// whatever the previous object of the sequence held
+				if r.Intn(2) == 0 {
+					docs[k] = nil
+				} else {
+					docs[k] = map[string]interface{}{}
+				}
+				continue
+			}
 			d := randDoc(r, 2)
 			if r.Intn(2) == 0 {
 				// through JSON: numbers become float64, times become strings
@@ -236,7 +255,12 @@ func c04(c *ev.Ctx) {
 					continue
 				}
 				for k, d := range docs {
-					o := evr.Exec(d)
+					var o eng.Obs
+					if d == nil {
+						o = evr.Exec(nil) // an untyped nil object
+					} else {
+						o = evr.Exec(d)
+					}
 					if o.Panicked || o.Nil {
 						c.Violation(id, "crash reading a document", map[string]interface{}{"summary": fmt.Sprintf("%s on %v: %s", script, d, o.Desc())})
 						return
